@@ -90,9 +90,9 @@ fn build(sel: &[usize], n: usize, s: &mut String, v: &mut [char; 3]) {
 /// into intractable loops -- measured) x both word modes (symbolic): the result is a *character* index in
 /// [0, #chars] and equals the reference motion; count_chars_bytes agrees with the UTF-8 layout.
 macro_rules! motion_for {
-    ($name:ident, $len:expr) => {
+    ($name:ident, $len:expr, $unw:expr) => {
         #[kani::proof]
-        #[kani::unwind(8)]
+        #[kani::unwind($unw)]
         #[kani::stub(char::is_whitespace, stub_is_whitespace)]
         #[kani::stub(char::is_alphanumeric, stub_is_alphanumeric)]
         fn $name() {
@@ -134,17 +134,17 @@ macro_rules! motion_for {
         }
     };
 }
-motion_for!(c20_motion_len0, 0usize);
-motion_for!(c20_motion_len1, 1usize);
-motion_for!(c20_motion_len2, 2usize);
-motion_for!(c20_motion_len3, 3usize);
+motion_for!(c20_motion_len0, 0usize, 8);
+motion_for!(c20_motion_len1, 1usize, 8);
+motion_for!(c20_motion_len2, 2usize, 27);
+motion_for!(c20_motion_len3, 3usize, 127);
 
 /// insert / remove at a character index: every string of N characters x every cursor (enumerated) x every
 /// inserted character (symbolic): the character lands at the cursor, removing it again restores the text.
 macro_rules! edit_for {
-    ($name:ident, $len:expr) => {
+    ($name:ident, $len:expr, $unw:expr) => {
         #[kani::proof]
-        #[kani::unwind(8)]
+        #[kani::unwind($unw)]
         fn $name() {
             let ins_sel: usize = kani::any();
             kani::assume(ins_sel < 5);
@@ -185,9 +185,9 @@ macro_rules! edit_for {
         }
     };
 }
-edit_for!(c20_edit_len0, 0usize);
-edit_for!(c20_edit_len1, 1usize);
-edit_for!(c20_edit_len2, 2usize);
+edit_for!(c20_edit_len0, 0usize, 8);
+edit_for!(c20_edit_len1, 1usize, 8);
+edit_for!(c20_edit_len2, 2usize, 27);
 
 /// get_next_command: a submitted line of exactly N bytes over {a, ';', space} (N concrete per harness) is split
 /// at ';' into the same pieces, in order, then the head index resets
@@ -356,9 +356,9 @@ fn handle_key_body(kind: K, n: usize) {
 }
 
 macro_rules! handle_key {
-    ($name:ident, $kind:expr, $n:expr) => {
+    ($name:ident, $kind:expr, $n:expr, $unw:expr) => {
         #[kani::proof]
-        #[kani::unwind(8)]
+        #[kani::unwind($unw)]
         #[kani::stub(char::is_whitespace, stub_is_whitespace)]
         #[kani::stub(char::is_alphanumeric, stub_is_alphanumeric)]
         fn $name() {
@@ -366,13 +366,14 @@ macro_rules! handle_key {
         }
     };
 }
-handle_key!(c20_key_char_len1, K::Char, 1usize);
-handle_key!(c20_key_backspace_len2, K::Backspace, 2usize);
-handle_key!(c20_key_delete_len2, K::Delete, 2usize);
-handle_key!(c20_key_left_right_len1, K::Left, 1usize);
-handle_key!(c20_key_right_len1, K::Right, 1usize);
-handle_key!(c20_key_ctrl_left_len2, K::CtrlLeft, 2usize);
-handle_key!(c20_key_ctrl_right_len2, K::CtrlRight, 2usize);
-handle_key!(c20_key_up_len1, K::Up, 1usize);
-handle_key!(c20_key_down_len1, K::Down, 1usize);
-handle_key!(c20_key_enter_len2, K::Enter, 2usize);
+handle_key!(c20_key_char_len1, K::Char, 1usize, 8);
+handle_key!(c20_key_backspace_len2, K::Backspace, 2usize, 27);
+handle_key!(c20_key_delete_len2, K::Delete, 2usize, 27);
+handle_key!(c20_key_left_right_len1, K::Left, 1usize, 8);
+handle_key!(c20_key_right_len1, K::Right, 1usize, 8);
+handle_key!(c20_key_ctrl_left_len2, K::CtrlLeft, 2usize, 27);
+handle_key!(c20_key_ctrl_right_len2, K::CtrlRight, 2usize, 27);
+handle_key!(c20_key_up_len1, K::Up, 1usize, 8);
+handle_key!(c20_key_down_len1, K::Down, 1usize, 8);
+handle_key!(c20_key_enter_len2, K::Enter, 2usize, 27);
+// (Enter trims the line: `str::trim` on a 2-character line with a 4-byte character needs a larger unwinding bound)
